@@ -44,6 +44,7 @@ def _prof(name: str) -> Prof:
                 'val_e': Prof(symbol=0, svar=False, mu=False, app=False),
                 'val_s': Prof(symbol=0, evar=False, exists=False, app=False),
                 'val_full': Prof(symbol=0, app=False),
+                'meta_raw': Prof(symbol=0, svar=False, mu=False, app=True, implies=False, exists=True, metavars=2, raw_inst=True),
                 'meta_nt': Prof(symbol=0, svar=False, mu=False, app=False, metavars=1, mv_cfgs=((0, 0, 0, 0), (1, 0, 0, 0)), notations=(P.bot, P.neg, P._and)),
             }
         )
@@ -108,9 +109,9 @@ def h_judge(ctx: Any, n: int, m: int, impl: str, kind: str, prof: str, valprof: 
     ctx.check(ok, f'C06.{impl}.{kind}.unsound[{t[0]}]', lambda: f'{O.show(t)} judged {kind}({v}) but instance {O.show(inst)} (sigma={ {k: O.show(s) for k, s in sig.items()} })')
 
 
-def h_notation(ctx: Any, n: int, twin: bool = False) -> None:
+def h_notation(ctx: Any, n: int, prof: str = 'meta_nt', twin: bool = False) -> None:
     """a pattern and its expansion get the same judgement (Python side; the checker has no notation)"""
-    p = gens.gen(ctx, n, _prof('meta_nt'))
+    p = gens.gen(ctx, n, _prof(prof))
     ctx.assume('Instantiate' in gens.kinds(p))
     pe = gens.from_term(O.expand(p))
     v = ctx.int('v')
@@ -141,6 +142,8 @@ def levels(tier: str) -> list[dict]:
         for kind in ('e_fresh', 's_fresh', 'positive', 'negative'):
             for n in (3, 4):
                 L.append(dict(label=f'rs/{kind}/full/n={n},val<=2', module=M, fn='h_judge', kwargs=dict(n=n, m=2, impl='rs', kind=kind, prof='meta_full', valprof='val_full'), budget_s=bud, required=False, twin=False))
+    for n in ([3, 4] if q else [3, 4, 5]):
+        L.append(dict(label=f'py/notation/partial-instantiate-of-open-bodies/n={n}', module=M, fn='h_notation', kwargs=dict(n=n, prof='meta_raw'), budget_s=bud, required=n <= 4, twin=False))
     for n in ([2, 3, 4] if q else [2, 3, 4, 5]):
         L.append(dict(label=f'py/notation/n={n}', module=M, fn='h_notation', kwargs=dict(n=n), budget_s=bud, required=n <= 3, twin=(n == 3)))
     return L
